@@ -42,6 +42,8 @@ pub struct Ctx {
     pub logical_steps: u64,
     /// digests of distinct non-trivial cases (rule is the property's)
     pub nontrivial: HashSet<u64>,
+    /// secondary measure of reach (e.g. distinct schedules = op-kind/actor sequences), unioned by the driver
+    pub aux: HashSet<u64>,
     /// commutative digest of (unit, sub, event digest): independent of the worker partition
     pub log_digest: u64,
     pub violations: Vec<FoundViolation>,
@@ -67,6 +69,7 @@ impl Ctx {
             evaluations: 0,
             logical_steps: 0,
             nontrivial: HashSet::new(),
+            aux: HashSet::new(),
             log_digest: 0,
             violations: Vec::new(),
             violation_count: BTreeMap::new(),
